@@ -35,3 +35,36 @@ def assemble(scratch, verif):
     with open(os.path.join(sl, "src", "lib.rs"), "a") as f:
         f.write('\n#[path = "verif_cfg.rs"]\npub(crate) mod verif_cfg;\n')
     return {"hashmap_import_swapped": swapped, "real_files": ["client.rs", "timeout.rs", "rtt.rs", "events.rs"]}
+
+
+def assemble_agentshim(scratch, verif):
+    """The whole real stun-agent crate (working tree copy) against the stun-rs environment model."""
+    base = scratch.base
+    ag = os.path.join(base, "agent-shim")
+    shutil.rmtree(ag, ignore_errors=True)
+    os.makedirs(os.path.join(ag, "src"))
+    shim = os.path.join(base, "shim-stun-rs")
+    shutil.rmtree(shim, ignore_errors=True)
+    shutil.copytree(os.path.join(verif, "shim", "stun-rs"), shim)
+    with open(os.path.join(ag, "Cargo.toml"), "w") as f:
+        f.write('[package]\nname = "stun-agent"\nversion = "0.0.0"\nedition = "2021"\n\n[dependencies]\nlog = "0.4.21"\nstun-rs = { path = "../shim-stun-rs" }\n\n'
+                '[lints.rust]\nunexpected_cfgs = { level = "allow", check-cfg = [\'cfg(kani)\'] }\n\n[workspace]\n')
+    agent_src = os.path.join(scratch.src, "stun-agent", "src")
+    swaps = 0
+    for f in sorted(os.listdir(agent_src)):
+        if not f.endswith(".rs"):
+            continue
+        txt = open(os.path.join(agent_src, f)).read()
+        if f == "client.rs":
+            txt, n = re.subn(r"use std::collections::HashMap;", "use crate::verif_map::VecMap as HashMap;", txt)
+            swaps += n
+        if f == "integrity.rs":
+            txt, n = re.subn(r"use std::collections::HashSet;", "use crate::verif_map::VecSet as HashSet;", txt)
+            swaps += n
+        if f == "lib.rs":
+            txt += '\nmod verif_map;\n'
+        with open(os.path.join(ag, "src", f), "w") as out:
+            out.write(txt)
+    shutil.copy(os.path.join(verif, "slice", "verif_map.rs"), os.path.join(ag, "src", "verif_map.rs"))
+    # non-kani builds (cargo check of the scratch copy) still need the std containers
+    return {"container_import_swaps": swaps}
